@@ -220,6 +220,7 @@ func build(t rep.Fataler, c *Case, now time.Time) *plan {
 	// prior history with the real store, in this process
 	for i, pr := range c.Prior {
 		db := jsondb.New(p.data, false)
+		defer db.VerifStop()
 		r := &mrun{dag: pr.Dag, req: fmt.Sprintf("%08x-prior-%d", 0x3000+i*7919, i), start: now.Add(-time.Duration(len(c.Prior)-i) * time.Hour).Truncate(time.Millisecond), closed: true, aged: pr.Aged, agedNow: pr.Aged, openedBy: -1}
 		if err := db.Open(cur[pr.Dag], r.start, r.req); err != nil {
 			t.Fatalf("prior open: %v", err)
@@ -237,7 +238,7 @@ func build(t rep.Fataler, c *Case, now time.Time) *plan {
 			}
 		}
 		if pr.Aged {
-			sf, err := jsondb.New(p.data, false).FindByRequestID(cur[pr.Dag], r.req)
+			sf, err := db.FindByRequestID(cur[pr.Dag], r.req)
 			if err != nil {
 				t.Fatalf("prior find: %v", err)
 			}
@@ -384,6 +385,7 @@ func judge(p *plan, c *Case, lastAck int, what string) string {
 		return l
 	}
 	db := jsondb.New(p.data, false)
+	defer db.VerifStop()
 	renameInflight := func(d int) bool {
 		return hasInflight && p.effects[inflight].kind == "rename" && p.effects[inflight].dag == d
 	}
